@@ -423,7 +423,7 @@ def run(ctx):
         if ctx.expired():
             ctx.cap('BFS stopped by VERIF_BUDGET_S at depth %d with %d frontier states' % (depth, len(frontier)))
             break
-        if len(seen) > (5000 if ctx.tier == "quick" else 200000) or depth > 12:
+        if len(seen) > (5000 if ctx.tier == "quick" else 40000) or depth > 12:
             # on the current tree the fixpoint is reached with ~1400 states at depth 4 (quick alphabet); a tree on which the implementation
             # fingerprint never repeats would make the search unbounded - stop, and say so (the run is then not exhaustive)
             ctx.cap('BFS stopped without a fixpoint: %d states at depth %d (state keys do not converge on this tree)' % (len(seen), depth))
